@@ -24,7 +24,7 @@ func init() {
 			"(e) marks are withdrawn only by the housekeeping delete of epoch-c (c >= 2) under a guard epoch > c-1; no other delete or replacement of entries exists; " +
 			"(f) the signer is reachable only through guards establishing data.Slot == duty.Slot(), source epoch <= target epoch, and target epoch both not above and not below the duty epoch; a helper's nil-error returns are checked against the same guards (errors.Wrap of a nil error counts as nil); " +
 			"(g) the slot signed is duty.Slot(); (h) the best/majority attestation-data strategies forward a response only under target != nil and target epoch == epoch of the requested slot. " +
-			"Added with the third seeding round: (i) no path leads from one signature request of a run to another (no retry or per-account re-signing after a failed batch). Added with the fourth seeding round: (j) the account managers' by-index lookups report an account only for a requested index (shared with C13.f). Added with the fifth seeding round: (k) the accounts put into the signature request are the values of the validating-accounts map, one per validator, not a walk over the duty's index list. Added with the sixth seeding round and the false-alarm regression: (x, extended) no in-place removal at the loop index followed by the next index; the cross-cutting rules below. Added with the seventh seeding round: (l) every access to the record of what was attested is made under its mutex. Added with the eighth seeding round (changes outside the anchor files): (j, extended) every non-nil result of a by-index account query is the map the query filled itself; (m) in the signer no attestation signing request follows on the failure edge of another. Added with the ninth (adversarial) seeding round: (j, extended) the exported by-index wrappers hand on the answer of a by-index query only. Added with the tenth seeding round: (f, restated) the bound of the target-epoch guards is the duty epoch only (no clock reading, no max/min). NOT decided: that the in-memory set survives restarts or a second instance; that the account provider returns only requested indices; the signer's own slashing protection; interleavings beyond the atomic region.",
+			"Added with the third seeding round: (i) no path leads from one signature request of a run to another (no retry or per-account re-signing after a failed batch). Added with the fourth seeding round: (j) the account managers' by-index lookups report an account only for a requested index (shared with C13.f). Added with the fifth seeding round: (k) the accounts put into the signature request are the values of the validating-accounts map, one per validator, not a walk over the duty's index list. Added with the sixth seeding round and the false-alarm regression: (x, extended) no in-place removal at the loop index followed by the next index; the cross-cutting rules below. Added with the seventh seeding round: (l) every access to the record of what was attested is made under its mutex. Added with the eighth seeding round (changes outside the anchor files): (j, extended) every non-nil result of a by-index account query is the map the query filled itself; (m) in the signer no attestation signing request follows on the failure edge of another. Added with the ninth (adversarial) seeding round: (j, extended) the exported by-index wrappers hand on the answer of a by-index query only. Added with the tenth seeding round: (f, restated) the bound of the target-epoch guards is the duty epoch only (no clock reading, no max/min). Added with the eleventh seeding round: (n) the store of an epoch's set lies in the critical section that found the epoch without one. NOT decided: that the in-memory set survives restarts or a second instance; that the account provider returns only requested indices; the signer's own slashing protection; interleavings beyond the atomic region.",
 		Technique:   "call-graph who-may-call, SSA guard/edge-deletion queries with relation sets, guard-helper summaries through error-nilness analysis, lock-set dataflow, dominance by path deletion",
 		Rule:        "one obligation per call site (a), per signer argument (b,g), per map operation on the attested set (c,e), per guarded effect (d,f,h); non-trivial = the construct exists and a path/provenance query was evaluated",
 		Assumptions: []string{"the chain-time service's SlotToEpoch and the division slot/slotsPerEpoch denote the same epoch (numeric agreement is outside this family)"},
@@ -369,11 +369,7 @@ func runC01(p *core.Prog, r *core.Report, tier string) {
 			if !ok || !lk.CommaOk {
 				return
 			}
-			outer, ok := lk.X.(*ssa.Lookup)
-			if !ok || !isAttestedMap(outer.X.Type()) {
-				return
-			}
-			if id, ok := core.FieldOfValue(outer.X); ok {
+			if id, ok := epochSetOf(lk.X, isAttestedMap); ok {
 				filterFn = f
 				attestedField = id
 			}
@@ -443,24 +439,66 @@ func runC01(p *core.Prog, r *core.Report, tier string) {
 
 	// ---- (c) atomic check-and-mark ----
 	held := la.HeldAt(filterFn)
-	var innerLookups []*ssa.Lookup
-	var innerInserts []*ssa.MapUpdate
+	var innerLookups, outerTests []*ssa.Lookup
+	var innerInserts, outerStores []*ssa.MapUpdate
 	core.EachInstr(filterFn, func(in ssa.Instruction) {
 		switch x := in.(type) {
 		case *ssa.Lookup:
-			if lk, ok := x.X.(*ssa.Lookup); ok {
-				if id, ok := core.FieldOfValue(lk.X); ok && id == attestedField {
-					innerLookups = append(innerLookups, x)
-				}
+			if id, ok := epochSetOf(x.X, isAttestedMap); ok && id == attestedField {
+				innerLookups = append(innerLookups, x)
+			}
+			if id, ok := core.FieldOfValue(x.X); ok && id == attestedField && x.CommaOk {
+				outerTests = append(outerTests, x)
 			}
 		case *ssa.MapUpdate:
-			if lk, ok := x.Map.(*ssa.Lookup); ok {
-				if id, ok := core.FieldOfValue(lk.X); ok && id == attestedField {
-					innerInserts = append(innerInserts, x)
-				}
+			if id, ok := epochSetOf(x.Map, isAttestedMap); ok && id == attestedField {
+				innerInserts = append(innerInserts, x)
+			}
+			if id, ok := core.FieldOfValue(x.Map); ok && id == attestedField {
+				outerStores = append(outerStores, x)
 			}
 		}
 	})
+	// releasedBetween: attestedMu can be released on the way from test to act
+	releasedBetween := func(test, act ssa.Instruction) (bool, []string) {
+		bad := false
+		var wit []string
+		core.EachInstr(filterFn, func(in ssa.Instruction) {
+			ci, ok := in.(ssa.CallInstruction)
+			if !ok || bad {
+				return
+			}
+			op, ok := core.LockOpOf(ci)
+			if !ok || op.Acquire || op.Lock.Field.Name != "attestedMu" {
+				return
+			}
+			isTest := func(x ssa.Instruction) bool { return x == test }
+			w1 := core.PathQuery{Fn: filterFn, From: test, Target: func(x ssa.Instruction) bool { return x == in }, Avoid: isTest}.Find()
+			w2 := core.PathQuery{Fn: filterFn, From: in, Target: func(x ssa.Instruction) bool { return x == act }, Avoid: isTest}.Find()
+			if w1 != nil && w2 != nil {
+				bad = true
+				wit = append(p.WitnessText(w1), p.WitnessText(w2)...)
+			}
+		})
+		return bad, wit
+	}
+	// (n) the epoch's set is created in the critical section that found it missing: a set stored after the lock was given
+	// up in between replaces the set another run has stored (and marked validators in) meanwhile
+	for i, st := range outerStores {
+		construct := fmt.Sprintf("%s|epoch-set-store#%d", core.FnKey(filterFn), i+1)
+		var test *ssa.Lookup
+		for _, lk := range outerTests {
+			if ds.D(lk.Index).String() == ds.D(st.Key).String() && core.InstrDominates(lk, st) {
+				test = lk
+			}
+		}
+		if test == nil {
+			r.Violate("C01.n", construct+"|tested", p.Pos(st.Pos()), "the set of an epoch is stored without a test, in the same function, that the epoch has none yet: the marks already made for the epoch are thrown away")
+			continue
+		}
+		bad, wit := releasedBetween(test, st)
+		r.Check(!bad, "C01.n", construct+"|one-critical-section", p.Pos(st.Pos()), "the epoch's set is stored in the critical section that found it missing", "attestedMu is released between the test that the epoch has no set and the store of a new one: two overlapping runs both create a set, the later store replaces the earlier, and each run marks its own set — the validators they share are signed twice", wit...)
+	}
 	r.Floor("C01.c membership tests", len(innerLookups), 1)
 	if len(innerInserts) == 0 {
 		r.Violate("C01.c", core.FnKey(filterFn)+"|no-mark", p.Pos(filterFn.Pos()), "membership in the attested set is tested but no validator is ever marked: repeated duties are signed again")
@@ -761,15 +799,62 @@ func checkAttestationDataStrategyFilter(p *core.Prog, r *core.Report, ds *core.D
 				nW++
 				construct := core.FnKey(f) + "|forward-response"
 				tgtE := func(d *core.VD) bool { return attField(d, "Target", "Epoch") }
-				reqEpoch := func(d *core.VD) bool {
-					return d.Any(func(x *core.VD) bool {
+				epochOfRequest := func(d *core.VD) (*core.VD, bool) {
+					var root *core.VD
+					ok := d.Any(func(x *core.VD) bool {
 						if !x.IsCall("SlotToEpoch") || len(x.Args) == 0 {
 							return false
 						}
 						a := x.Args[len(x.Args)-1]
-						root, path := a.FieldPath()
-						return len(path) == 1 && path[0] == "Slot" && root.Kind == "param" && !isAttDataRoot(root)
+						rt, path := a.FieldPath()
+						if len(path) == 1 && path[0] == "Slot" && rt.Kind == "param" && !isAttDataRoot(rt) {
+							root = rt
+							return true
+						}
+						return false
 					})
+					return root, ok
+				}
+				reqEpoch := func(d *core.VD) bool {
+					if _, ok := epochOfRequest(d); ok {
+						return true
+					}
+					// the epoch worked out once by the caller and handed to every worker: a parameter that, at every
+					// call of this function, is SlotToEpoch(X.Slot) for the request X handed over in the same call
+					prm, isPrm := d.Val.(*ssa.Parameter)
+					if !isPrm || prm.Parent() != f {
+						return false
+					}
+					k := core.ParamIndex(f, prm.Name())
+					n := p.CallGraph().Nodes[f]
+					if k < 0 || n == nil {
+						return false
+					}
+					sites := 0
+					for _, e := range n.In {
+						if e.Site == nil || e.Site.Common().StaticCallee() != f {
+							continue
+						}
+						args := e.Site.Common().Args
+						if k >= len(args) {
+							return false
+						}
+						root, ok := epochOfRequest(ds.D(args[k]))
+						if !ok {
+							return false
+						}
+						same := false
+						for j, a := range args {
+							if j != k && a == root.Val {
+								same = true
+							}
+						}
+						if !same {
+							return false
+						}
+						sites++
+					}
+					return sites > 0
 				}
 				w := core.Unguarded(ds, f, nil, func(x ssa.Instruction) bool { return x == in }, relGuard(tgtE, reqEpoch, map[string]bool{"==": true}))
 				r.Check(w == nil, ruleID, construct+"|target-epoch", p.Pos(in.Pos()), "response forwarded only when target epoch == epoch of the requested slot", "a response can be forwarded without target epoch == SlotToEpoch(opts.Slot) having been established", p.WitnessText(w)...)
@@ -870,4 +955,29 @@ func appendedSources(v ssa.Value) []ssa.Value {
 	}
 	rec(v)
 	return out
+}
+
+// epochSetOf: v is the set of one epoch taken out of the service's per-epoch map — field[epoch] read directly, the
+// value of a two-valued lookup, or a merge of such a value with a set made on the spot.
+func epochSetOf(v ssa.Value, isAttestedMap func(types.Type) bool) (core.FieldID, bool) {
+	switch x := v.(type) {
+	case *ssa.Lookup:
+		if isAttestedMap(x.X.Type()) {
+			return core.FieldOfValue(x.X)
+		}
+	case *ssa.Extract:
+		if lk, ok := x.Tuple.(*ssa.Lookup); ok && x.Index == 0 && isAttestedMap(lk.X.Type()) {
+			return core.FieldOfValue(lk.X)
+		}
+	case *ssa.Phi:
+		for _, e := range x.Edges {
+			if _, isPhi := e.(*ssa.Phi); isPhi {
+				continue
+			}
+			if id, ok := epochSetOf(e, isAttestedMap); ok {
+				return id, true
+			}
+		}
+	}
+	return core.FieldID{}, false
 }
